@@ -132,6 +132,15 @@ CHECKS["C14"] = dict(
     note="Granularity limit: one module, line events, one runnable thread at a time; races inside a single line or inside C code of deque/dict are out of reach. The module's threading name is shimmed.",
     design="DESIGN.md section 4 C14")
 
+CHECKS["C15"] = dict(
+    technique="Hypothesis-generated job batches run on real master/worker threads with perturbed scheduling (worker count, switch interval, enqueue timing, failing job position); differential oracle against the direct Pipeline run; quiescence-based (not stopwatch-based) decision of 'never completes'",
+    text=("Generated-input search over batches (224 batches quick, 1.1k batches of up to 40 jobs thorough): each job has its own prime "
+          "factor and payload so loss, duplication and cross-talk are visible; every future must complete exactly once with the direct "
+          "run's (data, context) plus job_id, one status publication per job, master alive; a raising job must complete exceptionally. "
+          "The schedule is perturbed, not owned: this finds correlation/loss bugs that are schedule-insensitive or frequent."),
+    note="Weaker than C14: real threads, perturbed schedule. Trusts the quiescence criterion (queues empty, executor idle, state unchanged 3 s with a 0.2 s master poll).",
+    design="DESIGN.md section 4 C15")
+
 NOT_YET = {}
 
 
